@@ -175,3 +175,64 @@ def _read_field(v, schema, tname, names):
             names.append(v.name)
         return int(v)
     return read(v, schema, tname, names)
+
+
+def mutate_in_place(msg, schema, tname, rng):
+    """Change leaf values of a live message in place (containers and nested objects are kept, so a
+    message that aliases any of them changes too). Returns the number of leaves changed."""
+    r = schema.resolve(tname)
+    n = 0
+    if r.kind == 'union':
+        arm = [a for a in r.arms if a[0] == msg.discriminator][0]
+        if is_composite(schema, arm[1]):
+            return mutate_in_place(getattr(msg, arm[2]), schema, arm[1], rng)
+        nv = _other_scalar(schema, arm[1], getattr(msg, arm[2]), rng)
+        if nv is not None:
+            setattr(msg, arm[2], nv)
+            n += 1
+        return n
+    sz = sizer_names(r)
+    for m in r.members:
+        if m.name in sz:
+            continue
+        comp = m.type != 'byte' and is_composite(schema, m.type)
+        cur = getattr(msg, m.name)
+        if m.kind in (PLAIN, OPTIONAL):
+            if cur is None:
+                continue
+            if comp:
+                n += mutate_in_place(cur, schema, m.type, rng)
+            else:
+                nv = _other_scalar(schema, m.type, cur, rng)
+                if nv is not None:
+                    setattr(msg, m.name, nv)
+                    n += 1
+        elif m.type == 'byte':
+            b = bytes(cur) if not isinstance(cur, str) else b''
+            if len(b):
+                setattr(msg, m.name, bytes(bytearray([b[0] ^ 0x55])) + b[1:])
+                n += 1
+        else:
+            for i in range(len(cur)):
+                if comp:
+                    n += mutate_in_place(cur[i], schema, m.type, rng)
+                else:
+                    nv = _other_scalar(schema, m.type, cur[i], rng)
+                    if nv is not None:
+                        cur[i] = nv
+                        n += 1
+    return n
+
+
+def _other_scalar(schema, tname, cur, rng):
+    r = schema.resolve(tname)
+    if isinstance(r, str):
+        if r in FLOATS:
+            return 2.5 if float(cur) != 2.5 else -4.0
+        w, signed = INTS[r]
+        hi = (1 << (8 * w - (1 if signed else 0))) - 1
+        return int(cur) - 1 if int(cur) >= hi else int(cur) + 1
+    if r.kind == 'enum':
+        others = [v for _, v, _ in r.members if v != int(cur)]
+        return rng.choice(others) if others else None
+    return None
